@@ -157,7 +157,7 @@ var clauseKeywords = map[string]bool{
 	"mode": true, "alloc_bound": true, "pure": true, "protected_by": true, "immutable": true,
 	"inv": true, "opaque": true, "havoc": true, "noinline": true, "bounded": true, "returns_fresh": true,
 	"sweep": true, "cover": true, "replay_hint": true, "never_writes": true, "frame_only": true, "reveal": true, "iface_calls_only": true, "direct_calls_only": true,
-	"rep_invariant": true, "dominated": true, "exact_strings": true,
+	"rep_invariant": true, "dominated": true, "exact_strings": true, "writes_unconditionally": true, "deterministic": true,
 	"requires_held": true, "unshared_receiver": true, "sync": true, "owner_lock": true, "complete": true,
 }
 
